@@ -74,6 +74,21 @@ type Property interface {
 
 var registry = map[string]Property{}
 
+// requiredProbes: conditions that must have been reached at least once in a thorough run.
+var requiredProbes = map[string][]string{
+	"C04": {"kill-inside-commit", "kill-with-torn-write", "kill-inside-recovery", "kill-with-two-operations-in-flight"},
+	"C05": {"reopen", "process-boundary", "open-while-another-is-open"},
+	"C06": {"overlapping-op-pairs", "timer-fired-during-run"},
+	"C07": {"commit-overlapped-another-commit"},
+	"C08": {"begin-overlapped-a-multi-key-commit"},
+	"C09": {"gc-direct"},
+	"C10": {"retry-on-another-root-succeeded", "enospc-after-partial-write", "abort-after-server-completed", "fault-fired:cut", "fault-fired:cancel", "fault-fired:reader"},
+	"C13": {"late-call", "unknown-tx-cases"},
+	"C16": {"send-timeout-fired", "seqlife-runs", "liferace-runs"},
+	"C17": {"dir-full", "dir-reused", "reopen"},
+	"C19": {"restart", "process-boundary", "open-rejected-corrupt-record"},
+}
+
 func Register(p Property) { registry[p.ID()] = p }
 
 func Lookup(id string) Property { return registry[id] }
@@ -301,6 +316,15 @@ func Drive(o DriveOpts) int {
 			a.infra = append(a.infra, "determinism self-test failed: the same seeds produced different traces in different processes")
 		} else {
 			selftest = fmt.Sprintf("%d runs x 3 fresh processes at GOMAXPROCS 1/4/16: identical per-run trace hashes, step counts and outcomes", nst)
+		}
+	}
+	// reach: a thorough run in which a condition the property depends on was never hit says
+	// nothing about it (infrastructure problem, not a pass)
+	if o.Tier == "thorough" {
+		for _, name := range requiredProbes[o.Prop] {
+			if a.probes[name]+a.faults[name] == 0 {
+				a.infra = append(a.infra, fmt.Sprintf("reach probe %q stayed at zero over the whole thorough run", name))
+			}
 		}
 	}
 	known := loadKnown(o.KnownPath)
